@@ -151,9 +151,12 @@ def snapshot(build: str, root: str) -> T.Dict[str, T.Dict[str, T.Any]]:
 
 
 def run_meson(args: T.List[str], env: T.Dict[str, str], cwd: str, timeout: int = 300) -> T.Tuple[int, str]:
-    p = subprocess.run([sys.executable, os.path.join(common.REPO, 'meson.py')] + args, env=env, cwd=cwd,
-                       stdout=subprocess.PIPE, stderr=subprocess.STDOUT, timeout=timeout)
-    return p.returncode, p.stdout.decode('utf-8', 'replace')
+    for _attempt in range(3):
+        p = subprocess.run([sys.executable, os.path.join(common.REPO, 'meson.py')] + args, env=env, cwd=cwd,
+                           stdout=subprocess.PIPE, stderr=subprocess.STDOUT, timeout=timeout)
+        if p.returncode >= 0:
+            break       # a negative code is death by signal (machine under pressure): infrastructure, retry
+    return p.returncode, p.stdout.decode('utf-8', 'replace') + f'\n[exit status {p.returncode}]'
 
 
 def run_plan(project_src: str, root: str, steps: T.List[dict], extra_args: T.Sequence[str] = ()) -> T.List[dict]:
